@@ -356,6 +356,7 @@ class Module:
         if not os.environ.get("SA_NO_ALPHA"):
             from . import alpha
 
+            alpha.strip_local_annotations(self.tree)
             self.renamed_back = alpha.normalise(self.tree, relpath)
         self.defs: dict[str, ast.AST] = {}
         self.imports: dict[str, str] = {}
